@@ -130,7 +130,7 @@ def main_program_with(mem_buff_size: Optional[int] = None):
 
 
 def run_main(argv: List[str], cd: CaseDir, cwd: Optional[str] = None, main_program=None,
-             trace: bool = False, env: Optional[Dict[str, str]] = None, tag: str = '') -> dict:
+             trace: bool = False, env: Optional[Dict[str, str]] = None, tag: str = '', bare: bool = False) -> dict:
     """Run MainProgram.execute(argv) in process with real files as output streams.
 
     Returns exit code, stdout, stderr, an escaping exception (if any), and what the process state looked
@@ -142,6 +142,11 @@ def run_main(argv: List[str], cd: CaseDir, cwd: Optional[str] = None, main_progr
     cwd = cwd or cd.home
     os.chdir(cwd)
     env_before = dict(os.environ)
+    saved_env = None
+    if bare:                  # the environment of the process is `env` and nothing else
+        saved_env = dict(os.environ)
+        os.environ.clear()
+        env_before = {}
     trace_p = None
     if env:
         os.environ.update(env)
@@ -168,6 +173,9 @@ def run_main(argv: List[str], cd: CaseDir, cwd: Optional[str] = None, main_progr
     res['env_changed'] = sorted(k for k in set(env_before) | set(env_after)
                                 if env_before.get(k) != env_after.get(k))
     os.environ.pop('EXACTLY_VERIF_TRACE', None)
+    if saved_env is not None:
+        os.environ.clear()
+        os.environ.update(saved_env)
     with open(out_p, encoding='utf-8', errors='replace', newline='') as fh:
         res['stdout'] = fh.read()
     with open(err_p, encoding='utf-8', errors='replace', newline='') as fh:
